@@ -371,7 +371,7 @@ def load_corpus(name):
 def err_summary(err):
     """the most telling line of a crashed harness's stderr"""
     lines = [l.strip() for l in err.split("\n") if l.strip()]
-    for key in ("ERROR: AddressSanitizer", "ERROR: ThreadSanitizer", "ERROR: LeakSanitizer", "runtime error", "Assertion", "terminate called", "what():"):
+    for key in ("ERROR: AddressSanitizer", "WARNING: ThreadSanitizer", "ERROR: ThreadSanitizer", "ERROR: LeakSanitizer", "runtime error", "Assertion", "terminate called", "what():"):
         for l in lines:
             if key in l:
                 return l[:300]
